@@ -248,6 +248,7 @@ func parse(ctx context.Context, tree *parser.Thrift, mode meta.ParseServiceMode,
 	}
 
 	structsCache := compilingCache{}
+	foreignCaches := map[*parser.Thrift]compilingCache{}
 
 	// support one service
 	svcs := tree.Services
@@ -295,7 +296,16 @@ func parse(ctx context.Context, tree *parser.Thrift, mode meta.ParseServiceMode,
 		}
 		for _, p := range funcs {
 			injectAnnotations((*[]*parser.Annotation)(&p.fn.Annotations), next)
-			if err := addFunction(ctx, p.fn, p.tree, sDsc, structsCache, sopts); err != nil {
+			// type names in the cache are relative to the file they are written in:
+			// functions inherited from a service of another file get that file's cache
+			cache := structsCache
+			if p.tree != tree {
+				if cache = foreignCaches[p.tree]; cache == nil {
+					cache = compilingCache{}
+					foreignCaches[p.tree] = cache
+				}
+			}
+			if err := addFunction(ctx, p.fn, p.tree, sDsc, cache, sopts); err != nil {
 				return nil, err
 			}
 		}
